@@ -38,6 +38,15 @@ Theorem c20_unauthentic_rejected : forall st c seq m,
 Proof. exact unauthentic_rejected. Qed.
 Print Assumptions c20_unauthentic_rejected.
 
+(* ... in particular after any history (no per-stream memory of earlier accepted
+   messages: the decision reads only the submitted message and the stream identity) *)
+Theorem c20_verification_has_no_memory : forall l c seq m,
+  (m_ver m = false \/ m_from m <> sc_src (scalls (run l) c)) ->
+  alive (sc_st (scalls (run l) c)) = true -> sc_perr (scalls (run l) c) = None ->
+  step (run l) (SessReq c seq (RSend m)) = fail c ERejected (run l).
+Proof. exact unauthentic_rejected_run. Qed.
+Print Assumptions c20_verification_has_no_memory.
+
 (* messages (and acks/clears) for a session epoch newer than the server's are rejected *)
 Theorem c20_future_epoch_rejected : forall st c seq r,
   admissible st c r -> epoch_of st c < seq ->
